@@ -649,33 +649,6 @@ theorem collectEs_spec : (es : List Expr) → FragEs es = true → (a : Acc) →
 end
 
 
-mutual
-/-- Statements on which the pinned analysis and Python agree about what a statement binds, besides the
-    deviation classes of `ActivityHyp`: no `except … as name` (the analysis raises: set aside by the
-    property), no bare parenthesised annotation `(x): T` (Python binds nothing, the analysis binds `x`),
-    no `import *` (not allowed inside a function). -/
-def SpecOkS : Stmt → Bool
-  | .functionDef _ _ _ body _ _ _ => SpecOkSs body
-  | .classDef _ _ _ _ body _ => SpecOkSs body
-  | .annAssign _ t _ v simple =>
-      (match t with
-       | .name _ _ c => c != .load && (simple || !v.isEmpty)
-       | _ => true)
-  | .for_ _ _ _ body orelse _ _ => SpecOkSs body && SpecOkSs orelse
-  | .while_ _ _ body orelse => SpecOkSs body && SpecOkSs orelse
-  | .if_ _ _ body orelse => SpecOkSs body && SpecOkSs orelse
-  | .with_ _ _ body _ => SpecOkSs body
-  | .try_ _ b h o f => SpecOkSs b && SpecOkSs h && SpecOkSs o && SpecOkSs f
-  | .handler _ _ name body => name.isEmpty && SpecOkSs body
-  | .import_ _ names => names.all fun a => !(a.2 == "" && a.1 == "*")
-  | .importFrom _ _ names _ => names.all fun a => !(a.2 == "" && a.1 == "*")
-  | .other _ _ _ bs => SpecOkSs bs
-  | _ => true
-def SpecOkSs : List Stmt → Bool
-  | [] => true
-  | s :: rest => SpecOkS s && SpecOkSs rest
-end
-
 /-- What `collectS s` does to the accumulator. -/
 structure CollectsS (a a' : Acc) (binds leaks globals nonlocals : List String) : Prop where
   binds : ∀ x, x ∈ a'.binds ↔ x ∈ binds ∨ x ∈ a.binds
